@@ -74,6 +74,8 @@ def gen_case(rng):
             "agent": rng.choice(["A", "Ambrose", "agent-7", "Ünï", "a.b"]), "turn": rng.choice([0, 1, 7, "3", "x"]), "version": rng.choice(["1", "7", "v-x", "0"]),
             "has_store": rng.random() < 0.85, "graph_key": rng.choice(["graph", "graph", "gel"]), "ndeltas": rng.randint(0, 3),
             # an older snapshot of another agent in the same directory: [file-name stem, seconds older]
+            # the same agent / version written once before with ANOTHER state (a re-snapshot without a version bump)
+            "prewrite_same_version": rng.random() < 0.4,
             "older_sibling": rng.choice([None, ["zz-older", 0.5], ["0-older", 0.5], ["zz-older", 0.004], ["zz-older", 3.0], ["~older", 0.25]])}
 
 
@@ -180,12 +182,40 @@ def check_case(case, sess: Session):
             except Exception as ex:
                 sess.violation("write-raises:" + type(ex).__name__, case, repr(ex)[:200])
                 return
+        if case.get("prewrite_same_version"):
+            st0 = WStore()
+            st0.w[("node", "earlier-content", "weight")] = 0.125
+            try:
+                S.write_snapshot(ctx, {"graph": {"nodes": {}, "edges": {"p→q": {"src": "p", "dst": "q", "weight": 0.25, "rel": "coact"}}, "meta": {}}, "version_etag": case["version"], "store": st0},
+                                 case["version"], applied=0, deltas=[])
+                sess.count("prewrites_same_agent_and_version")
+            except Exception as ex:
+                sess.violation("write-raises:" + type(ex).__name__, case, repr(ex)[:200])
+                return
         try:
             path = S.write_snapshot(ctx, state, case["version"], applied=case["ndeltas"], deltas=deltas)
         except Exception as ex:
             sess.violation("write-raises:" + type(ex).__name__, case, repr(ex)[:200])
             return
         sess.count("snapshots_written")
+        # the header+payload writer (full and delta files): every file it writes has its schema sidecar
+        try:
+            with tmpdir("c06a_") as d2:
+                pay0 = {"version_etag": "e0", "graph": {"k": 1}, "gel": {"edges": {}}}
+                pay1 = {"version_etag": "e1", "graph": {"k": 2}, "gel": {"edges": {"a→b": {"w": 0.5}}}, "agent": case["agent"]}
+                p0, d0 = S.write_snapshot_auto(d2, etag_from=None, etag_to="e0", payload=pay0, delta_mode=False)
+                p1, d1 = S.write_snapshot_auto(d2, etag_from="e0", etag_to="e1", payload=pay1, delta_mode=True)
+                for pth, was_delta in ((p0, d0), (p1, d1)):
+                    sess.count("auto_writer_files_checked" + (":delta" if was_delta else ":full"))
+                    try:
+                        side = json.load(open(pth + ".meta", encoding="utf-8"))
+                        ok_ = side.get("schema_version") == "v1"
+                    except Exception:
+                        ok_ = False
+                    if not ok_:
+                        sess.violation("schema-marker-missing-in-sidecar", case, {"file": os.path.basename(pth), "delta": was_delta})
+        except Exception as ex:
+            sess.violation("auto-writer-raises:" + type(ex).__name__, case, repr(ex)[:200])
         sess.sample({k: case[k] for k in ("bounds", "edges_as", "nodes_as", "agent", "turn", "version", "meta")} | {"edges": case["edges"][:4], "weights": case["weights"][:3]})
         if not nan_eq(gel, gel0):
             sess.violation("write-mutates-state-graph", case, None)
@@ -372,6 +402,8 @@ def main(tier: str, seed: int):
     sess.require("rewrites_compared", 500)
     sess.require("cases_with_sanitised_edges", 100)
     sess.require("discovery_calls", 300)
+    sess.require("auto_writer_files_checked:delta", 100)
+    sess.require("prewrites_same_agent_and_version", 60)
     sess.require("older_sibling_within_the_same_second", 60)
     sess.require("real_temp_leftovers_planted", 300)
     sess.require("killed_write_leftovers", 300)
